@@ -23,8 +23,8 @@ ClassOf(t) == CASE t \in {"sds:big2d:first", "sds:big2d:last", "sds:small:first"
                           "sds:t_float32:mid", "sds:t_float64:last", "sds:t_float32:ulp", "sds:t_float64:ulp", "sds:t_char8:mid", "sds:huge:first", "sds:huge:mid", "sds:huge:last"} -> "sds"
                   [] t \in {"vdata:table1:first", "vdata:table1:last", "vdata:table2:mid"} -> "vdata"
                   [] t \in {"gr:img:first", "gr:img:last", "gr:img3:comp0", "gr:img3:comp1", "gr:img3:comp2"} -> "gr"
-                  [] t \in {"sdattr:big2d:units"} -> "sdattr"
-                  [] t \in {"gattr:title"} -> "gattr"
+                  [] t \in {"sdattr:big2d:units", "sdattr:big2d:cal:2", "sdattr:big2d:steps:4", "sdattr:big2d:cal:0hi"} -> "sdattr"
+                  [] t \in {"gattr:title", "gattr:levels:4", "gattr:levels:0hi", "gattr:origin:1", "gattr:origin:2hi"} -> "gattr"
                   [] t \in {"added:sds"} -> "added"
 \* does the option select the class?
 \* (raster images are compared under every option)
